@@ -161,7 +161,7 @@ def _vc_lit(v):
             return False
         v["exp"]["ok"] = "no" if ok == "yes" else "yes"
         if ok == "no":
-            v["exp"]["v"] = {"a": [], "b": [], "len": 0}
+            v["exp"]["v"] = {"a": [], "b": [], "len": -1}
         return True
     v["exp"]["ok"] = not ok
     return True
@@ -262,8 +262,12 @@ CHECKS = {
         ],
     ),
     "C05": dict(
-        level="exploration",
-        rule="inputs parsed in a child process (8 MiB main stack; every 5th on a 2 MiB thread; filter and value-expression entry "
+        level="model_checking",
+        rule="WfText, the character-level transcription of the parser (white space, keyword prefixes, identifier ends, literal lexers, "
+             "argument classification), decides the verdict and the AST of arbitrary TEXT: MC_Text enumerates every concatenation of <= "
+             "MaxAtoms atoms (keywords in both spellings, identifiers that begin with keywords, brackets, literals of every kind, space, "
+             "line feed) for three atom sets; random filters are laid out with any or no white space in any gap, corrupted at character "
+             "level and validated by Trace_Lang (text events). Totality proper: inputs parsed in a child process (8 MiB main stack; every 5th on a 2 MiB thread; filter and value-expression entry "
              "points): 21 structural stress inputs of 1e5 elements (flat chains, nestings of ( / not / ! / any( / call( / [ , mixed, "
              "brace lists, # runs at 255/256/1e5, long strings/escapes, 1e5 lines, CRLF lines), random bytes decoded lossily, character "
              "soups over the language's characters incl. multi-byte ones and tabs, token soups, valid random filters with 1-3 character "
@@ -272,8 +276,13 @@ CHECKS = {
              "additionally judged exactly by the L2 parser model (Trace_Lang).",
         assumptions=["inputs for arbitrary Unicode are produced by harness generators, not derived from the model",
                      "a child killed by a signal or a missing answer is recorded as a crash outcome"],
+        exhaustive=True,
         stages=[
+            mc("texts-logic", "MC_Text.tla", dict(quick="MC_Text_logic3.cfg", thorough="MC_Text_logic4.cfg"), workers=6),
+            mc("texts-comparisons", "MC_Text.tla", dict(quick="MC_Text_cmp3.cfg", thorough="MC_Text_cmp4.cfg"), workers=6),
+            mc("texts-index-call", "MC_Text.tla", dict(quick="MC_Text_idx3.cfg", thorough="MC_Text_idx4.cfg"), workers=6),
             trace("inputs", "Trace_Total", ["gen-total", "--stress", "--big", "100000"], 3000, 200000, shards=SH),
+            lang("texts", "text", 2500, 100000, ["--nctx", "3", "--depth", "3", "--repct", "15", "--mutate", "30"], shards=SH, seed_off=7),
             lang("token-soups", "soup", 6000, 300000, ["--nctx", "2"], shards=SH),
             lang("mutants", "rich", 2000, 60000, ["--nctx", "2", "--depth", "3", "--mutate", "80"], shards=SH, seed_off=4),
         ],
@@ -312,6 +321,7 @@ CHECKS = {
         stages=[
             mc("aliases", "MC_C07.tla", "MC_C07.cfg"),
             lang("canon", "c07", 2500, 80000, ["--nctx", "1", "--depth", "3", "--mutate", "10"], shards=SH),
+            lang("texts", "text", 1500, 60000, ["--nctx", "2", "--depth", "3", "--repct", "10"], shards=SH, seed_off=3),
         ],
     ),
     "C08": dict(
